@@ -156,6 +156,7 @@ def main():
     ap.add_argument("--suffix", default="_rn")
     ap.add_argument("--keep", action="store_true")
     ap.add_argument("--repo", default="/repo")
+    ap.add_argument("--check", help="run only this check (e.g. C08)")
     a = ap.parse_args()
     tmp = tempfile.mkdtemp(prefix="baize_rename_")
     try:
@@ -178,6 +179,8 @@ def main():
                         open(pth, "w").write(new)
         print(f"mode={a.mode}: transformed {n} files under {tmp}")
         checks = [c["property_id"] for c in json.load(open(os.path.join(VERIF, "MANIFEST.json")))["checks"]]
+        if a.check:
+            checks = [c for c in checks if c == a.check]
         env = dict(os.environ, BAIZE_REPO=tmp, BAIZE_VERIF_OUT=os.path.join(tmp, "_out"))
         bad = 0
         for c in checks:
